@@ -69,13 +69,14 @@ macro_rules! arm_harness {
 /// `substr` operator builds atoms: a view into a larger heap atom.
 pub fn sym_heap_atom<const L: usize>(a: &mut Allocator) -> (NodePtr, [u8; L]) {
     let buf: [u8; L] = kani::any();
-    let mut big = [0xffu8; 12];
+    let mut big = [0xffu8; 48];
+    assert!(L + 2 <= 48);
     let mut i = 0;
     while i < L {
         big[1 + i] = buf[i];
         i += 1;
     }
-    let base = a.new_atom(&big).unwrap();
+    let base = a.new_atom(&big[..L + 2]).unwrap();
     let n = a.new_substr(base, 1, 1 + L as u32).unwrap();
     (n, buf)
 }
@@ -89,9 +90,9 @@ macro_rules! sig_harness {
         #[kani::stub(std::hash::RandomState::new, $crate::stubs::fixed_keys)]
         #[kani::stub(std::vec::Vec::reserve, $crate::stubs::reserve_stub)]
         #[kani::stub(chia_consensus::conditions::parse_args, $stub)]
-        #[kani::stub(chia_bls::PublicKey::from_bytes, $crate::stubs::pk_from_bytes_stub)]
-        #[kani::stub(chia_bls::PublicKey::is_inf, $crate::stubs::pk_is_inf_stub)]
-        #[kani::stub(chia_bls::PublicKey::to_bytes, $crate::stubs::pk_to_bytes_stub)]
+        #[kani::stub(chia_consensus::conditions::PublicKey::from_bytes, $crate::stubs::pk_from_bytes_stub)]
+        #[kani::stub(chia_consensus::conditions::PublicKey::is_inf, $crate::stubs::pk_is_inf_stub)]
+        #[kani::stub(chia_consensus::conditions::PublicKey::to_bytes, $crate::stubs::pk_to_bytes_stub)]
         fn $name() $body
     };
 }
